@@ -31,4 +31,4 @@ Extraction "../ocaml/c15/model.ml"
   kind_defaults kind_max_operands operand_write operator_write
   cglyph_read cglyph_write glyph_read_full glyph_write_full has_instructions
   parse parse_cmap sub_write to_owned cmap_write cmap_read_all owned_records
-  cvt_read cvt_write charset_read charset_write charset_id_for_glyph fdselect_read fdselect_write encoding_read encoding_write.
+  cvt_read cvt_write charset_read charset_write charset_id_for_glyph charset_sid_to_gid fdselect_read fdselect_write encoding_read encoding_write.
